@@ -297,3 +297,145 @@ def bstr(ints):
 def show(ints):
     """Readable rendering of a byte list for evidence samples."""
     return "".join(chr(b) if 32 <= b < 127 and b != 92 else "\\x%02x" % b for b in ints)
+
+
+# ---------------------------------------------------------------------------
+# TLC export of behaviours / trace validation helpers
+
+def write_ndjson(path, items):
+    with open(path, "w") as f:
+        for it in items:
+            f.write(json.dumps(it, separators=(",", ":")))
+            f.write("\n")
+
+
+def read_ndjson(path):
+    out = []
+    with open(path) as f:
+        for line in f:
+            line = line.strip()
+            if line:
+                out.append(json.loads(line))
+    return out
+
+
+def cfg_text(spec="Spec", constants=None, invariants=(), properties=(), view=None, constraint=None, extra=""):
+    t = "SPECIFICATION %s\n" % spec
+    if constants:
+        t += "CONSTANTS\n"
+        for k, v in constants.items():
+            t += "  %s = %s\n" % (k, v)
+    if invariants:
+        t += "INVARIANTS " + " ".join(invariants) + "\n"
+    if properties:
+        t += "PROPERTIES " + " ".join(properties) + "\n"
+    if view:
+        t += "VIEW %s\n" % view
+    if constraint:
+        t += "CONSTRAINT %s\n" % constraint
+    t += "CHECK_DEADLOCK FALSE\n" + extra
+    return t
+
+
+def tla_set(ints):
+    return "{" + ", ".join(str(i) for i in ints) + "}"
+
+
+def tlc_with_cfg(sc, d, module, name, cfgtext, **kw):
+    cfg = "%s.cfg" % name
+    with open(os.path.join(d, cfg), "w") as f:
+        f.write(cfgtext)
+    return run_tlc(sc, d, module, cfg, **kw)
+
+
+def tlc_mc(sc, d, base, name, constants, invariants=(), properties=(), spec="Spec", view=None, constraint=None, **kw):
+    """Run TLC on module `base` with the given constant expressions: generates MC_<name>.tla that
+    EXTENDS base and defines each constant (cfg files cannot hold tuples), plus the cfg."""
+    mod = "MC_%s" % name
+    with open(os.path.join(d, mod + ".tla"), "w") as f:
+        f.write("---- MODULE %s ----\nEXTENDS %s\n" % (mod, base))
+        for k, v in constants.items():
+            f.write("mc_%s == %s\n" % (k, v))
+        f.write("====\n")
+    t = "SPECIFICATION %s\n" % spec
+    if constants:
+        t += "CONSTANTS\n"
+        for k in constants:
+            t += "  %s <- mc_%s\n" % (k, k)
+    if invariants:
+        t += "INVARIANTS " + " ".join(invariants) + "\n"
+    if properties:
+        t += "PROPERTIES " + " ".join(properties) + "\n"
+    if view:
+        t += "VIEW %s\n" % view
+    if constraint:
+        t += "CONSTRAINT %s\n" % constraint
+    t += "CHECK_DEADLOCK FALSE\n"
+    with open(os.path.join(d, mod + ".cfg"), "w") as f:
+        f.write(t)
+    return run_tlc(sc, d, mod + ".tla", mod + ".cfg", **kw)
+
+
+def shard_traces(lines, k):
+    """Split ndjson trace lines into <= k shards at 'begin' boundaries."""
+    starts = [i for i, l in enumerate(lines) if l.startswith('{"ev":"begin"') or '"ev":"begin"' in l[:80]]
+    if not starts:
+        return [lines] if lines else []
+    k = max(1, min(k, len(starts)))
+    per = (len(starts) + k - 1) // k
+    shards = []
+    for j in range(0, len(starts), per):
+        a = starts[j]
+        b = starts[j + per] if j + per < len(starts) else len(lines)
+        shards.append(lines[a:b])
+    return shards
+
+
+def validate_traces(sc, d, module, cfg, trace_path, shards=None, timeout=1800, heap="3g"):
+    """Trace validation: runs one single-worker TLC per shard in parallel.  Returns
+    (events, traces, rejects[list of dict], tlc_states, tlc_generated)."""
+    import threading
+    with open(trace_path) as f:
+        lines = [l for l in f.read().split("\n") if l]
+    if not lines:
+        return 0, 0, [], 0, 0
+    sh = shard_traces(lines, shards or NCPU)
+    results = [None] * len(sh)
+    errors = []
+
+    def work(i):
+        try:
+            p = sc.path("shard-%s-%d.ndjson" % (os.path.basename(trace_path), i))
+            with open(p, "w") as f:
+                f.write("\n".join(sh[i]) + "\n")
+            res = run_tlc(sc, d, module, cfg, workers=1, timeout=timeout, env={"TRACE_FILE": p}, heap=heap)
+            results[i] = res
+            os.remove(p)
+        except Exception as e:
+            errors.append(e)
+
+    th = [threading.Thread(target=work, args=(i,)) for i in range(len(sh))]
+    for t in th:
+        t.start()
+    for t in th:
+        t.join()
+    if errors:
+        raise errors[0]
+    events = traces = states = gen = 0
+    rejects = []
+    for i, res in enumerate(results):
+        done = None
+        for rec in res.printed():
+            if rec.get("done"):
+                done = rec
+            elif "reject" in rec:
+                rejects.append(rec)
+        if done is None or done["events"] != len(sh[i]):
+            raise ToolFailure("trace validation did not consume shard %d of %s:\n%s" % (i, module, res.out[-3000:]))
+        if res.violated:
+            raise ToolFailure("invariant %s violated during trace validation (%s):\n%s" % (res.violated, module, res.out[-3000:]))
+        events += done["events"]
+        traces += done["traces"]
+        states += res.distinct
+        gen += res.generated
+    return events, traces, rejects, states, gen
